@@ -168,4 +168,72 @@ MUTANTS = [
       old="""        let pch_addr = rt.message().receiver();""",
       new="""        let receiver_info = rt.message();
         let pch_addr = receiver_info.receiver();""", expect=None),
+
+ # ---------------- C18
+ dict(id='C18-primop0-instantiated', pid='C18', file='actors/evm/src/interpreter/instructions/mod.rs',
+      old="""def_stdfun! { MSIZE() => memory::msize }""",
+      new="""def_primop! { MSIZE() => context::msize_zero }""", expect=r'0x59:MSIZE',
+      extra=('actors/evm/src/interpreter/instructions/context.rs', """#[inline]
+pub fn blockhash(""", """#[inline]
+pub fn msize_zero() -> U256 {
+    U256::zero()
+}
+
+#[inline]
+pub fn blockhash(""")),
+ dict(id='C18-wrong-arity', pid='C18', file='actors/evm/src/interpreter/instructions/mod.rs',
+      old="""def_stdproc! { MSTORE8(a, b) => memory::mstore8 }""",
+      new="""def_stdproc! { MSTORE8(a, b, _c) => memory::mstore8_3 }""", expect=r'0x53:MSTORE8',
+      extra=('actors/evm/src/interpreter/instructions/memory.rs', """#[inline]
+pub fn mcopy(""", """#[inline]
+pub fn mstore8_3(
+    state: &mut ExecutionState,
+    system: &System<impl Runtime>,
+    index: U256,
+    value: U256,
+    _c: U256,
+) -> Result<(), ActorError> {
+    mstore8(state, system, index, value)
+}
+
+#[inline]
+pub fn mcopy(""")),
+ dict(id='C18-swapped-slots', pid='C18', file='actors/evm/src/interpreter/execution.rs',
+      old="""        0x1c: SHR,
+        0x1d: SAR,""", new="""        0x1c: SAR,
+        0x1d: SHR,""", expect=r'opcode:0x1c'),
+ dict(id='C18-tstore-readonly-dropped', pid='C18', file='actors/evm/src/interpreter/instructions/storage.rs',
+      old="""    if system.readonly {
+        return Err(ActorError::read_only("store called while read-only".into()));
+    }
+
+    system.set_transient_storage(key, value)""",
+      new="""    system.set_transient_storage(key, value)""", expect=r'readonly:tstore'),
+ dict(id='C18-stack-bound-off', pid='C18', file='actors/evm/src/interpreter/stack.rs',
+      old="""    pub fn ensure_one(&self) -> Result<(), ActorError> {
+        if self.stack.len() >= STACK_SIZE {""",
+      new="""    pub fn ensure_one(&self) -> Result<(), ActorError> {
+        if self.stack.len() > STACK_SIZE {""", expect=r'ensure_one:bound'),
+ dict(id='C18-jumpi-unchecked', pid='C18', file='actors/evm/src/interpreter/instructions/control.rs',
+      old="""        let dst =
+            dest.try_into().context_code(EVM_CONTRACT_BAD_JUMPDEST, "jumpdest exceeds u32")?;
+        if !bytecode.valid_jump_destination(dst) {""",
+      new="""        let dst: usize =
+            dest.try_into().context_code(EVM_CONTRACT_BAD_JUMPDEST, "jumpdest exceeds u32")?;
+        if dst >= bytecode.len() {""", expect=r'jumpi:valid-destination'),
+ dict(id='C18-memory-unchecked-add', pid='C18', file='actors/evm/src/interpreter/instructions/memory.rs',
+      old="""    let new_size: u32 = offset
+        .checked_add(size)
+        .context_code(EVM_CONTRACT_ILLEGAL_MEMORY_ACCESS, "new memory size exceeds max u32")?;""",
+      new="""    let new_size: u32 = offset.wrapping_add(size);""", expect=r'get_memory_region:checked_add'),
+ dict(id='C18-call-value-static', pid='C18', file='actors/evm/src/interpreter/instructions/call.rs',
+      old="""    if system.readonly && value > U256::zero() {""",
+      new="""    if system.readonly && value > U256::zero() && kind != CallKind::DelegateCall {""", expect=r'readonly:call-with-value'),
+ dict(id='C18-selfdestruct-readonly-after-transfer', pid='C18', file='actors/evm/src/interpreter/instructions/lifecycle.rs',
+      old="""    if system.readonly {
+        return Err(ActorError::read_only("selfdestruct called while read-only".into()));
+    }
+
+    // Try to give funds""",
+      new="""    // Try to give funds""", expect=r'readonly:selfdestruct'),
 ]
